@@ -83,9 +83,9 @@ var (
 			return math.Pow(f, 3)
 		}),
 		LinearisationSqrt: LineariserFunc(math.Sqrt),
-		LinearisationCubeRt: LineariserFunc(func(f float64) float64 {
-			return math.Pow(f, 1./3)
-		}),
+		// not math.Pow(f, 1./3), which is NaN for negative values, whereas the
+		// cube root is defined (and negative) for them
+		LinearisationCubeRt: LineariserFunc(math.Cbrt),
 	}
 )
 
